@@ -32,6 +32,8 @@ ALLOWED_DISCARDS = [
 # known findings live in known_findings.json (F16: flush().ok(); F17: cleanup thread .ok())
 
 PANIC_TRIAGE = [
+    (r'FileSpec::collision_free_infix_for_rotated_file$', r'^core::str::<impl str>::parse$', 'INV',
+     "the sibling filter admits only names with four ASCII digits after `.restart-` (C10 R10.1 restart-sibling-guard; F10 fixed)"),
     (r'.*', r'^std::sync::(Mutex|RwLock)::<T>::(lock|read|write)$', 'POI', "poison only: nothing may panic under these locks (C10 R10.2)"),
     (r'flexi_logger::FlexiLogger as log::Log>::log$', r'^std::result::Result::<T, E>::as_ref$', 'POI', "read() of the spec lock, poison only"),
     (r'^(threads::start_async_stdwriter|writers::file_log_writer::state::start_(async_fs_writer|sync_flusher|async_fs_flusher))$', r'^std::thread::Builder::spawn$', 'RES',
@@ -173,11 +175,14 @@ def log_reports(R, ctx, ed):
 
 
 def panics(R, ctx, sites):
+    import c10
     for (b, bb, n, c) in sites:
         if 'panic' not in c:
             continue
         key = f"{root_fn(b.path)}|{n}|unwrap"
         tri = next(((cls, why) for (fr, cr, cls, why) in PANIC_TRIAGE if re.search(fr, root_fn(b.path)) and re.search(cr, n)), None)
+        if tri and 'restart-sibling-guard' in tri[1] and not c10.restart_sibling_guard(ctx):
+            tri = None          # the invariant that excluded the failure is gone
         if tri:
             R.ok('R19.6', key, f"{tri[0]}: {tri[1]}")
         else:
